@@ -1107,6 +1107,35 @@ func (c *Context) Pow(d, x, y *Decimal) (Condition, error) {
 		return 0, nil
 	}
 
+	if y.Form == Infinite {
+		// x is finite and non-zero.
+		var res Condition
+		if xs < 0 {
+			d.Set(decimalNaN)
+			return c.goError(InvalidOperation)
+		}
+		switch x.Cmp(decimalOne) {
+		case -1:
+			// 0 < x < 1
+			if y.Negative {
+				d.Set(decimalInfinity)
+			} else {
+				d.Set(decimalZero)
+			}
+		case 0:
+			// 1**Infinity is deemed inexact by the specification.
+			d.Set(decimalOne)
+			res = Inexact | Rounded
+		default:
+			if y.Negative {
+				d.Set(decimalZero)
+			} else {
+				d.Set(decimalInfinity)
+			}
+		}
+		return c.goError(res)
+	}
+
 	if xs < 0 && !yIsInt {
 		d.Set(decimalNaN)
 		return c.goError(InvalidOperation)
